@@ -349,7 +349,7 @@ impl Check for C08 {
         "C08"
     }
     fn cases(&self, tier: Tier) -> u64 {
-        expr::N_EXHAUSTIVE + tier.pick(40_000, 3_000_000)
+        expr::N_EXHAUSTIVE + tier.pick(40_000, 20_000_000)
     }
     fn run(&self, ctx: &Ctx, idx: u64, rec: &mut Recorder) {
         let mut rng = Rng::for_case(ctx.seed, "C08", idx);
